@@ -54,6 +54,15 @@ inductive Arr where
   | cngSynth      -- psDec->sCNG.CNG_synth_state[ MAX_LPC_ORDER ]
   | cngSig        -- ALLOC( CNG_sig_Q14, length + MAX_LPC_ORDER, opus_int32 )        CNG.c:131
   | prevNlsf      -- psDec->prevNLSF_Q15[ MAX_LPC_ORDER ]
+  -- silk_decode_parameters (model in OpusModel/SilkSynthIdxParams.lean)
+  | gainsIdx      -- psDec->indices.GainsIndices[ MAX_NB_SUBFR ]
+  | ltpIdx        -- psDec->indices.LTPIndex[ MAX_NB_SUBFR ]
+  | nlsfIdx       -- psDec->indices.NLSFIndices[ MAX_LPC_ORDER + 1 ]
+  | ltpVqPtrs     -- silk_LTP_vq_ptrs_Q7[ NB_LTP_CBKS ]
+  | ltpVq0        -- silk_LTP_gain_vq_0[ 8 ][ 5 ], flattened (tables_LTP.c)
+  | ltpVq1        -- silk_LTP_gain_vq_1[ 16 ][ 5 ]
+  | ltpVq2        -- silk_LTP_gain_vq_2[ 32 ][ 5 ]
+  | ltpScales     -- silk_LTPScales_table_Q14[ 3 ]
   deriving DecidableEq, Repr
 
 def Arr.name : Arr → String
@@ -64,12 +73,15 @@ def Arr.name : Arr → String
   | .sLTP_Q14 => "sLTP_Q14" | .exc_buf => "exc_buf" | .plcLtp => "PLC_LTPCoef_Q14" | .prevLPC => "prevLPC_Q12"
   | .prevGain => "prevGain_Q16" | .aPlc => "A_Q12" | .attTab => "AttTab" | .cngExcBuf => "CNG_exc_buf_Q14"
   | .cngSmthNlsf => "CNG_smth_NLSF_Q15" | .cngSynth => "CNG_synth_state" | .cngSig => "CNG_sig_Q14"
-  | .prevNlsf => "prevNLSF_Q15"
+  | .prevNlsf => "prevNLSF_Q15" | .gainsIdx => "GainsIndices" | .ltpIdx => "LTPIndex" | .nlsfIdx => "NLSFIndices"
+  | .ltpVqPtrs => "LTP_vq_ptrs" | .ltpVq0 => "LTP_vq_0" | .ltpVq1 => "LTP_vq_1" | .ltpVq2 => "LTP_vq_2"
+  | .ltpScales => "LTPScales"
 
 def Arr.all : List Arr :=
   [.sLTP, .sLTP_Q15, .res_Q14, .sLPC_Q14, .exc_Q14, .outBuf, .sLPC_Q14_buf, .predCoef, .ltpCoef, .gains,
    .pitchL, .xq, .pulses, .aTmp, .quantOffsets, .sLTP_Q14, .exc_buf, .plcLtp, .prevLPC, .prevGain, .aPlc, .attTab,
-   .cngExcBuf, .cngSmthNlsf, .cngSynth, .cngSig, .prevNlsf]
+   .cngExcBuf, .cngSmthNlsf, .cngSynth, .cngSig, .prevNlsf, .gainsIdx, .ltpIdx, .nlsfIdx, .ltpVqPtrs, .ltpVq0, .ltpVq1,
+   .ltpVq2, .ltpScales]
 
 /-- One access: elements `[lo, hi)` of `arr`, read or written. -/
 structure Acc where
@@ -127,6 +139,14 @@ def Arr.size (c : Cfg) : Arr → Int
   | .cngSynth => SilkSynth.szCngSynthState
   | .cngSig => c.frameLen + SilkSynth.maxLpcOrder
   | .prevNlsf => SilkSynth.szPrevNlsf
+  | .gainsIdx => SilkSynth.szGainsIndices
+  | .ltpIdx => SilkSynth.szLtpIndex
+  | .nlsfIdx => SilkSynth.szNlsfIndices
+  | .ltpVqPtrs => SilkSynth.nbLtpCbks
+  | .ltpVq0 => SilkSynth.szLtpVq0
+  | .ltpVq1 => SilkSynth.szLtpVq1
+  | .ltpVq2 => SilkSynth.szLtpVq2
+  | .ltpScales => SilkSynth.szLtpScales
 
 /-- The access lies inside the array. -/
 def Acc.inBounds (c : Cfg) (a : Acc) : Prop := 0 ≤ a.lo ∧ a.hi ≤ a.arr.size c
